@@ -46,12 +46,13 @@ func originKinds(v ssa.Value) []string {
 }
 
 func init() {
-	register(&Rule{ID: "ANCHOR", Min: 3, Text: "anchor liveness in arrays: every anchor of a locally created Add/Move operation in package json originates from a liveness-filtered accessor (LastLiveCreatedAt, FindPrevCreatedAt, PosCreatedAt of a visible index) — never from the tombstone-inclusive LastCreatedAt",
+	register(&Rule{ID: "ANCHOR", Min: 3, Text: "anchor liveness in arrays: every anchor of a locally created Add/Move operation in package json originates from a liveness-filtered accessor (LastLiveCreatedAt, FindPrevCreatedAt, PosCreatedAt of a visible index) — never from the tombstone-inclusive LastCreatedAt, and from an element's own CreatedAt() only in a function that also converts it with PosCreatedAt (the fallback when the conversion fails)",
 		Run: func(x *Ctx) {
 			// --- liveness in package json: anchors of NewAdd / NewMove
 			live := map[string]bool{"call:LastLiveCreatedAt": true, "call:FindPrevCreatedAt": true, "call:PosCreatedAt": true, "call:CreatedAt": true, "nil": true}
 			jsonFns := x.P.FuncsIn("pkg/document/json")
 			ci := x.calls()
+			pairs := map[string]bool{} // kind@function
 			var trace func(v ssa.Value, fn *ssa.Function, depth int, out map[string]string)
 			trace = func(v ssa.Value, fn *ssa.Function, depth int, out map[string]string) {
 				for _, k := range originKinds(v) {
@@ -79,6 +80,7 @@ func init() {
 						continue
 					}
 					out[k] = prog.FnName(fn)
+					pairs[k+"@"+prog.FnName(fn)] = true
 				}
 			}
 			n := 0
@@ -87,8 +89,21 @@ func init() {
 				for _, c := range callsTo(jsonFns, obj) {
 					n++
 					origins := map[string]string{}
+					for k := range pairs {
+						delete(pairs, k)
+					}
 					trace(c.Common().Args[1], c.Parent(), 0, origins)
 					var bad, all []string
+					// an element's own CreatedAt() is an anchor only as the fallback of the conversion to its
+					// position identity (PosCreatedAt failed): the function that takes it must also try PosCreatedAt
+					for pk := range pairs {
+						if strings.HasPrefix(pk, "call:CreatedAt@") {
+							where := strings.TrimPrefix(pk, "call:CreatedAt@")
+							if !pairs["call:PosCreatedAt@"+where] {
+								bad = append(bad, "an element's CreatedAt() without the PosCreatedAt conversion in "+where+" (an element identity used as a position anchor: after the element was moved it names the dead slot it left)")
+							}
+						}
+					}
 					for k, where := range origins {
 						all = append(all, k)
 						if strings.HasPrefix(k, "param:") {
